@@ -279,7 +279,7 @@ def _lits_spec(rng):
             "len": rng.choice([1, 2, 3, 4, 5]),
             "seed": rng.randrange(2 ** 30),
             # the literals come in a list, or in any other sequence
-            "form": rng.choice(["list", "list", "tuple", "range"])}
+            "form": rng.choice(["list", "list", "tuple", "range", "bool"])}
 
 
 def _gen_api_op(rng, klass):
@@ -341,9 +341,13 @@ def _gen_api_op(rng, klass):
                                 "new_words"])}
 
 
-def _as_arg(lits, spec):
+def _as_arg(lits, spec, check=True):
     """The literals in the container form asked for by the case."""
     form = spec.get("form", "list") if isinstance(spec, dict) else "list"
+    if form == "bool" and check:
+        # python's True is the integer 1: a literal like any other (in
+        # checked insertions; unchecked ones are stored as they come)
+        return [True if type(l) is int and l == 1 else l for l in lits]
     if form == "tuple":
         return tuple(lits)
     if form == "range" and lits and all(type(l) is int for l in lits):
@@ -622,7 +626,7 @@ def _exec_api(case, ctx, mon):
             continue
         if kind == "add_clause":
             lits, cls = lits_of(op["lits"], op["check"])
-            r = call(F.add_clause, _as_arg(lits, op["lits"]),
+            r = call(F.add_clause, _as_arg(lits, op["lits"], op["check"]),
                      check=op["check"])
             if cls == "bad":
                 expect = "refuse"
@@ -634,7 +638,8 @@ def _exec_api(case, ctx, mon):
                 lits, cls = lits_of(spec, op["check"])
                 cl.append((lits, cls))
             r = call(F.add_clauses_from,
-                     [_as_arg(l, sp) for (l, _), sp in zip(cl, op["lits"])],
+                     [_as_arg(l, sp, op["check"])
+                      for (l, _), sp in zip(cl, op["lits"])],
                      check=op["check"])
             expect = "ok"
             for lits, cls in cl:
@@ -650,16 +655,20 @@ def _exec_api(case, ctx, mon):
                 lits = lits[:5]
             if kind == "cardinality":
                 fn = getattr(F, "cardinality_" + op["kind"])
-                r = call(fn, _as_arg(lits, op["lits"]), op["value"],
+                r = call(fn, _as_arg(lits, op["lits"], op["check"]),
+                         op["value"],
                          check=op["check"])
             elif kind == "majority":
-                r = call(getattr(F, op["kind"]), _as_arg(lits, op["lits"]),
+                r = call(getattr(F, op["kind"]),
+                         _as_arg(lits, op["lits"], op["check"]),
                          check=op["check"])
             elif kind == "parity":
-                r = call(F.add_parity, _as_arg(lits, op["lits"]),
+                r = call(F.add_parity,
+                         _as_arg(lits, op["lits"], op["check"]),
                          op["const"], check=op["check"])
             elif kind == "linear":
-                r = call(F.add_linear, _as_arg(lits, op["lits"]), op["rel"],
+                r = call(F.add_linear,
+                         _as_arg(lits, op["lits"], op["check"]), op["rel"],
                          op["const"],
                          check=op["check"])
                 if op["rel"] == "=<":
